@@ -17,7 +17,7 @@ eq_refl eq_symm eq_trans deepcopy_eq eq_iff_same_function eq_implies_same_functi
 eq_same_durations_iff eq_total_duration eq_detects_operator_count eq_detects_basis
 eq_detects_operator_or_identifier eq_detects_duration eq_detects_term slice_spec slice_entries
 slice_wf slice_full index_spec slice_concat_roundtrip'''.split()
-PINS = ['pinJoinEqualSegments']
+PINS = ['pinJoinEqualSegments', 'pinHashArray']
 GEN_SITES = ['const:pulse_sequence.__eq__']
 COMPONENTS = ['parse_hamiltonian', 'join_segments', 'pulse_eq', 'slice']
 RULES = ['correspondence: _parse_Hamiltonian (default / given / mixed identifiers), '
@@ -339,6 +339,26 @@ def check_default_ids(ctx, case):
     p2 = ff.PulseSequence([[o, [float(k)]] for k, o in enumerate(ops)], [[ops[0], [1.0]]], [1.0])
     if list(p2.c_oper_identifiers) != ids:
         probs.append('default identifiers not deterministic')
+    # stored sorted by identifier (as strings: 'A_10' < 'A_2'), also for noise operators, and the
+    # same pulse with the default identifiers written out is the same object in every respect
+    if ids != sorted(ids):
+        probs.append('default control identifiers are not stored sorted')
+    nn = min(n, 14)
+    nops = [np.array([[0, k], [k, 0]], dtype=complex) for k in range(1, nn + 1)]
+    pn = ff.PulseSequence([[ops[0], [1.0]]], [[o, [1.0 + 0.1*k]] for k, o in enumerate(nops)], [1.0])
+    pe = ff.PulseSequence([[ops[0], [1.0], 'A_0']],
+                          [[o, [1.0 + 0.1*k], f'B_{k}'] for k, o in enumerate(nops)], [1.0])
+    nids = list(pn.n_oper_identifiers)
+    if nids != sorted(nids):
+        probs.append('default noise identifiers are not stored sorted')
+    if pn == pe:
+        om = np.linspace(0.1, 3, 4)
+        if list(pe.n_oper_identifiers) != nids or \
+                not np.allclose(pn.get_filter_function(om), pe.get_filter_function(om), atol=1e-10):
+            probs.append('equal pulses (default vs written-out identifiers) have different '
+                         'identifier order / filter functions')
+    else:
+        probs.append('default identifiers written out explicitly give an unequal pulse')
     ctx.count(('ids', n))
     if probs:
         ctx.fail('default_identifiers', case, probs, 'distinct deterministic identifiers',
